@@ -20,7 +20,7 @@ UVL_NAMES = {
     "opword": "AND", "brackets": "a[1]{b}", "keyword-features": "features", "digits": "64",
     "number-like": "1e3", "case-variant": "alpha_1", "true": "true",
     "tab-inside": "tab\there", "leading-blank": " lead", "trailing-blank": "trail ", "double-blank": "two  blanks",
-    "apostrophe": "it's", "comma-colon": "a,b:c", "slashes": "a/b\\c", "hash-at": "#tag@home",
+    "apostrophe": "it's", "apostrophes-at-both-ends": "'x'", "apostrophe-first": "'lead", "comma-colon": "a,b:c", "slashes": "a/b\\c", "hash-at": "#tag@home",
 }
 
 
